@@ -1,5 +1,5 @@
 """C01 Round trip: load(dump(x, T), T) == x for every supported type and configuration."""
-from vf.gen import Module, Plan
+from vf.gen import Module, Plan, Ob
 from props.fam_model import MEMBERS, member_module
 
 L1 = '''
@@ -97,6 +97,56 @@ def sel_ints(n, c0, c1, c2):
     return [pick(c, 5) - 1 for c in (c0, c1, c2)[:n]]
 '''
 
+KTD = '''
+from datetime import timedelta
+from adaptix import Retort
+TD_LOADER = Retort().get_loader(timedelta)
+TD_DUMPER = Retort().get_dumper(timedelta)
+def ktd(mode, bound):
+    from vf.smt import ktd as K
+    try:
+        if mode == "relaxed":
+            r = K.check_relaxed(TD_LOADER, -bound, bound, 120000)
+        else:
+            r = K.check(TD_LOADER, -bound, bound, 200000)
+    except K.CannotEncode as e:
+        return {"status": "UNKNOWN", "detail": "cannot encode: %s" % (e,)}
+    rec = {"solver_queries": 1, "solver_s": round(r["solver_s"], 3), "evaluations": 1,
+           "functions_encoded": ["morphing/concrete_provider.py:SecondsTimedeltaProvider._make_loader.<locals>.timedelta_loader"],
+           "backend": "z3 LRA+LIA with the standard model of IEEE rounding (over-approximation)" if mode == "relaxed" else "z3 QF_FPBV bit-precise"}
+    if r["result"] == "unsat":
+        rec["status"] = "CONFIRMED"
+    elif r["result"] == "sat":
+        n = r["n"]
+        if not chk_replay(n) or mode != "relaxed":
+            rec.update(status="REFUTED", cex={"n": str(n)})
+        else:
+            # the relaxed model over-approximates binary64: look for a real witness bit-precisely before giving up
+            try:
+                r2 = K.check(TD_LOADER, -bound, bound, 100000)
+            except K.CannotEncode:
+                r2 = {"result": "unknown"}
+            if r2["result"] == "sat": rec.update(status="REFUTED", cex={"n": str(r2["n"])})
+            else: rec.update(status="UNKNOWN", detail="relaxed model sat (n=%d does not reproduce), bit-precise query %s" % (n, r2["result"]))
+    else:
+        rec.update(status="UNKNOWN", detail="solver " + r["result"])
+    return rec
+def chk_replay(n):
+    td = timedelta(microseconds=n)
+    return TD_LOADER(TD_DUMPER(td)) == td
+'''
+
+
+def ktd_module(tier):
+    m = Module("c01_ktd").pre(KTD)
+    bound = 2 ** 47 if tier == "quick" else 2 ** 51
+    for name, mode, b, what in (("ktd_relaxed", "relaxed", bound, f"|n| <= {bound} microseconds (all counts; standard rounding model, sound over-approximation of binary64)"),
+                                ("ktd_bitprecise", "bitprecise", 256, "|n| <= 256 microseconds, bit-precise QF_FPBV (cross-check of the encoding)")):
+        m.fns.append(f"def smt_{name}():\n    return ktd({mode!r}, {b})\n\ndef chk_{name}(n):\n    return chk_replay(n)\n")
+        m.obs.append(Ob(name=name, module=m.key, kind="smt", timeout=300, family="E2 K-td: timedelta dump/load round trip over integer microsecond counts (z3)",
+                        bounds=what))
+    return m
+
 
 def build(tier, seed):
     quick = tier == "quick"
@@ -162,7 +212,7 @@ def chk_{name}({args}):
           "t = None if (isnone and a > 0) else (Stub(a), None if isnone else Stub(a + 1))\n"
           "return rt2('ListList', v, False) and rt2('DictList', d, False) and rt2('OptTuple', t, False)",
           pre=["len(xs) <= 2"], timeout=tmo, family=fam2, bounds="depth-2 glue: List[List], Dict[str, List[Optional]], Optional[Tuple[., Optional]]")
-    mods = [m, m2]
+    mods = [m, m2, ktd_module(tier)]
     names = ["plain", "rename", "nested", "nested2", "camel", "upper_kebab", "no_trim", "map_gt_style", "ellipsis", "ellipsis_style", "pairs_map",
              "stack_override", "stack_style", "forbid_nested", "rest_field", "rest_field_rename", "saturator", "omit_all", "omit_one", "omit_nested",
              "as_list", "as_list_map", "list_gaps", "list_in_dict", "dict_in_list"]
